@@ -63,7 +63,51 @@ def handler_branches(ctx: Ctx, rule: str, tf: Func, h: ast.ExceptHandler, exc_pa
                   "a path through the task target's catch-all neither re-raises nor forwards the exception", construct="handler fallthrough")
 
 
+def r13_8(ctx: Ctx) -> None:
+    """(a) two members never race for one output path: _extract gives a duplicated member name a suffix (`name_0`), and the new name can
+    meet another member's; whenever such a rename happened the folders are extracted in archive order - the `parallel` argument of
+    Worker.extract depends on a flag that is set in the renaming branch.  (b) the worker tasks re-open the archive by the NAME of the
+    handle: the constructor opens the file by an absolute path, so that the name stays valid when the process changes its working
+    directory between opening and extracting (a relative name would make the tasks fail, or decode another file of the same name)."""
+    f = shared.szf(ctx, "_extract")
+    renames = [n for n in walk(f.node) if isinstance(n, ast.Assign) and isinstance(n.value, ast.BinOp) and isinstance(n.value.op, ast.Add)
+               and any(isinstance(x, ast.Attribute) and x.attr == "filename" for x in ast.walk(n.value.left)) and
+               (isinstance(n.value.right, ast.BinOp) or isinstance(n.value.right, ast.JoinedStr) or isinstance(n.value.right, ast.Call))]
+    ctx.floor("R13.8", len(renames), 1, "duplicate-name renames in _extract")
+    wcalls = [c for c in q.calls(f) if "py7zr:Worker.extract" in shared.targets_of(ctx, f, c)]
+    for r in renames:
+        # flags assigned in the same branch as the rename
+        from ..model import parent_map
+        pm = parent_map(f.node)
+        blk = pm.get(r)
+        sibs = [x for fld in ("body", "orelse") for x in getattr(blk, fld, []) if isinstance(getattr(blk, fld, None), list) and any(y is r for y in getattr(blk, fld))]
+        flags = {t.id for x in sibs if isinstance(x, ast.Assign) and isinstance(x.value, ast.Constant) and x.value.value is True for t in x.targets if isinstance(t, ast.Name)}
+        for c in wcalls:
+            par = next((k.value for k in c.keywords if k.arg == "parallel"), c.args[2] if len(c.args) > 2 else None)
+            srcs = [par] + list(q.sources_of(f, par, depth=3)) if par is not None else []
+            ok = (isinstance(par, ast.Constant) and par.value is False) or any(isinstance(x, ast.Name) and x.id in flags for e in srcs for x in ast.walk(e))
+            ctx.check(ok, "R13.8", f, c, "folders are extracted in order when a member name was rewritten",
+                      "a duplicated member name is rewritten to `<name>_<n>` but folders may still be extracted in parallel: members `a`, `a`, `a_0` in three folders make two "
+                      "workers write `<out>/a_0`, and which content survives depends on the schedule (sequential extraction keeps the real `a_0`)",
+                      construct="parallel with renamed duplicates")
+    init = shared.szf(ctx, "__init__")
+    opens = [c for c in q.calls(init) if dotted(c.func) == "open" and c.args]
+    ctx.floor("R13.8", len(opens), 1, "open() of the archive in the constructor")
+    tasks_by_name = any(isinstance(x, ast.Call) and dotted(x.func) == "getattr" and len(x.args) > 1 and isinstance(x.args[1], ast.Constant) and x.args[1].value == "name"
+                        for x in walk(ctx.prog.func("py7zr", "Worker.extract").node))
+    if tasks_by_name:
+        for c in opens:
+            a = c.args[0]
+            srcs = [a] + list(q.sources_of(init, a, depth=2))
+            ok = any(isinstance(x, ast.Call) and (dotted(x.func) in ("os.path.abspath", "os.path.realpath") or attr_tail(x) in ("resolve", "absolute")) for e in srcs for x in ast.walk(e))
+            ctx.check(ok, "R13.8", init, c, "the archive is opened by an absolute path (tasks re-open it by the handle's name)",
+                      f"the constructor opens the archive as `{norm(c)}` and the folder tasks re-open it by `fp.name`: a relative name is resolved again at extraction time, so after "
+                      "os.chdir() the parallel path fails with FileNotFoundError or decodes another file of the same name, while the sequential path extracts correctly",
+                      construct="archive opened by relative name")
+
+
 def run(ctx: Ctx) -> None:
+    r13_8(ctx)
     from . import c03 as _c03, c06 as _c06
     _c03.parallel_guard(ctx, "R13.6")
     _c06.r06_10(ctx, rule="R13.7")  # each task decodes its own folder's byte window
